@@ -130,12 +130,137 @@ Proof. intros Hp Hi Hc Hlt. unfold C14_DataGen.rn2data. destruct (rn2d_go ps 0 r
     + exfalso. exact (lt_irrefl_le _ _ Hlt (Hall i L)).
   - exfalso. exact (lt_irrefl_le _ _ Hlt (top_none _ _ E i Hi)). Qed.
 
-(* the fallback: r >= sum(p) returns the LAST index whatever its probability *)
-Theorem rn2data_fallback ps r : Forall (kle F 0) ps -> total ps <= r ->
-  rn2data ps r = (Z.of_nat (length ps) - 1)%Z.
+(* ---- the fallback value: the last index of positive probability ---- *)
+Lemma flt0_true p : flt F 0 p = true <-> 0 < p. Proof. apply flt_true. Qed.
+Lemma not_pos_le p : ~ 0 < p -> p <= 0.
+Proof. intros H. destruct (kleb F p 0) eqn:E; [now apply k_leb|]. exfalso. apply H. apply flt_true. unfold flt. now rewrite E. Qed.
+
+(* a value that names an in-range index of positive probability of the whole vector l *)
+Definition posidx (l : list F) (z : Z) : Prop := exists n : nat, z = Z.of_nat n /\ (n < length l)%nat /\ 0 < nth n l 0.
+Definition has_pos (l : list F) : Prop := exists j : nat, (j < length l)%nat /\ 0 < nth j l 0.
+
+Lemma snoc_assoc {A} (pre : list A) p t : (pre ++ [p]) ++ t = pre ++ p :: t.
+Proof. now rewrite <- app_assoc. Qed.
+Lemma nth_mid pre p (t : list F) : nth (length pre) (pre ++ p :: t) 0 = p.
+Proof. rewrite app_nth2 by lia. now rewrite Nat.sub_diag. Qed.
+Lemma len_snoc {A} (pre : list A) p : length (pre ++ [p]) = S (length pre).
+Proof. rewrite app_length. cbn. lia. Qed.
+
+(* last_pos_go scans the suffix t of pre ++ t: the result is the largest index of positive probability in t, or lp *)
+Lemma last_pos_go_spec t : forall pre lp,
+  (has_pos t ->
+     exists n, last_pos_go F t (length pre) lp = Z.of_nat n /\ (length pre <= n < length (pre ++ t))%nat /\
+               0 < nth n (pre ++ t) 0 /\ forall j, (n < j < length (pre ++ t))%nat -> ~ 0 < nth j (pre ++ t) 0) /\
+  (~ has_pos t -> last_pos_go F t (length pre) lp = lp).
+Proof. induction t as [|p t IH]; intros pre lp.
+  - split; [intros (j & Hj & _); cbn in Hj; lia|reflexivity].
+  - cbn [C14_DataGen.last_pos_go]. rewrite <- (len_snoc pre p).
+    destruct (IH (pre ++ [p]) (if flt F 0 p then Z.of_nat (length pre) else lp)) as [IH1 IH2]. rewrite snoc_assoc in IH1.
+    assert (D : has_pos t \/ ~ has_pos t).
+    { clear. induction t as [|a t IHt]; [right; intros (j & Hj & _); cbn in Hj; lia|].
+      destruct (flt F 0 a) eqn:E.
+      - left. exists O. split; [cbn; lia|]. now apply flt0_true.
+      - destruct IHt as [(j & Hj & Hp)|N]; [left; exists (S j); split; [cbn; lia|exact Hp]|].
+        right. intros (j & Hj & Hp). destruct j as [|j]; [apply flt0_true in Hp; cbn [nth] in Hp; congruence|].
+        apply N. exists j. split; [cbn in Hj; lia|exact Hp]. }
+    split.
+    + intros Hpos. destruct D as [Ht|Nt].
+      * destruct (IH1 Ht) as (n & En & Hr & Hp & Hmax). exists n. rewrite len_snoc in Hr. split; [exact En|]. split; [lia|]. split; [exact Hp|exact Hmax].
+      * rewrite (IH2 Nt). destruct (flt F 0 p) eqn:E.
+        -- exists (length pre). split; [reflexivity|]. split; [rewrite app_length; cbn; lia|]. split; [rewrite nth_mid; now apply flt0_true|].
+           intros j Hj Hp. apply Nt. exists (j - S (length pre))%nat. rewrite app_length in Hj. cbn [length] in Hj. split; [lia|].
+           rewrite app_nth2 in Hp by lia. replace (j - length pre)%nat with (S (j - S (length pre))) in Hp by lia. exact Hp.
+        -- exfalso. destruct Hpos as (j & Hj & Hp). destruct j as [|j]; [apply flt0_true in Hp; cbn [nth] in Hp; congruence|].
+           apply Nt. exists j. split; [cbn in Hj; lia|exact Hp].
+    + intros N. assert (Nt : ~ has_pos t). { intros (j & Hj & Hp). apply N. exists (S j). split; [cbn; lia|exact Hp]. }
+      rewrite (IH2 Nt). destruct (flt F 0 p) eqn:E; [|reflexivity]. exfalso. apply N. exists O. split; [cbn; lia|]. now apply flt0_true. Qed.
+
+(* last_positive: the LARGEST index of positive probability when there is one, else len - 1 *)
+Theorem last_positive_spec ps :
+  (has_pos ps -> exists n, last_positive F ps = Z.of_nat n /\ (n < length ps)%nat /\ 0 < nth n ps 0 /\
+                           forall j, (n < j < length ps)%nat -> ~ 0 < nth j ps 0) /\
+  (~ has_pos ps -> last_positive F ps = (Z.of_nat (length ps) - 1)%Z).
+Proof. unfold C14_DataGen.last_positive. destruct (last_pos_go_spec ps [] (Z.of_nat (length ps) - 1)%Z) as [A B]. cbn [length app] in A, B.
+  split; [|exact B]. intros H. destruct (A H) as (n & E & Hr & Hp & Hm). exists n. split; [exact E|]. split; [lia|]. split; [exact Hp|exact Hm]. Qed.
+
+(* the fallback: r >= sum(p) returns the last index of POSITIVE probability (never an outcome of probability 0 when a
+   positive entry exists) *)
+Theorem rn2data_fallback ps r : Forall (kle F 0) ps -> total ps <= r -> rn2data ps r = last_positive F ps.
 Proof. intros Hp Ht. unfold C14_DataGen.rn2data. destruct (rn2d_go ps 0 r O) as [i|] eqn:E; [|reflexivity].
   exfalso. destruct (top_some _ _ _ E) as (Hl & Hlt & _). apply (lt_irrefl_le _ _ Hlt).
   apply (k_trans F _ (total ps)); [|exact Ht]. rewrite <- (cum_all ps (length ps)) by lia. apply cum_mono; [exact Hp|lia]. Qed.
+
+(* ---- the single-loop transcription, with an arbitrary accumulation operation ---- *)
+Lemma rn2d_r_split t : forall c r idx lp,
+  rn2d_r F (cadd F) t c r idx lp = match rn2d_go t c r idx with Some i => Z.of_nat i | None => last_pos_go F t idx lp end.
+Proof. induction t as [|p t IH]; intros c r idx lp; cbn [C14_DataGen.rn2d_r C14_DataGen.rn2d_go C14_DataGen.last_pos_go]; [reflexivity|].
+  destruct (flt F r (c + p)); [reflexivity|apply IH]. Qed.
+Theorem rn2data_r_exact_add ps r : rn2data_r F (cadd F) ps r = rn2data ps r.
+Proof. unfold C14_DataGen.rn2data_r, C14_DataGen.rn2data, C14_DataGen.last_positive. apply rn2d_r_split. Qed.
+
+(* VALIDITY, for exact AND rounded accumulation: let add be any operation with  p <= 0 -> add c p <= c  (true of exact
+   addition and of every monotone rounding of it, e.g. IEEE round-to-nearest on finite values).  Then for EVERY random number
+   r >= 0 and every vector with at least one positive entry (no other condition: entries may be negative, the sum
+   arbitrary) the returned outcome is in range and has positive probability. *)
+Section Rounded.
+Context (add : F -> F -> F) (add_nonpos : forall c p, p <= 0 -> add c p <= c).
+Lemma rn2d_r_valid t : forall pre c r lp, c <= r -> posidx (pre ++ t) lp \/ has_pos t ->
+  posidx (pre ++ t) (rn2d_r F add t c r (length pre) lp).
+Proof. induction t as [|p t IH]; intros pre c r lp Hc Hq; cbn [C14_DataGen.rn2d_r].
+  - destruct Hq as [Hq|(j & Hj & _)]; [exact Hq|cbn in Hj; lia].
+  - destruct (flt F r (add c p)) eqn:E.
+    + exists (length pre). split; [reflexivity|]. split; [rewrite app_length; cbn; lia|]. rewrite nth_mid.
+      destruct (flt F 0 p) eqn:E0; [now apply flt0_true|]. exfalso. apply flt_true in E. apply flt_false in E0.
+      apply (lt_irrefl_le _ _ E). exact (k_trans F _ _ _ (add_nonpos c p E0) Hc).
+    + apply flt_false in E. rewrite <- (len_snoc pre p), <- snoc_assoc. apply IH; [exact E|]. rewrite snoc_assoc.
+      destruct (flt F 0 p) eqn:E0.
+      * left. exists (length pre). split; [reflexivity|]. split; [rewrite app_length; cbn; lia|]. rewrite nth_mid. now apply flt0_true.
+      * destruct Hq as [Hq|(j & Hj & Hp)]; [left; exact Hq|]. destruct j as [|j]; [apply flt0_true in Hp; cbn [nth] in Hp; congruence|].
+        right. exists j. split; [cbn in Hj; lia|exact Hp]. Qed.
+Theorem rn2data_r_valid ps r : 0 <= r -> has_pos ps -> posidx ps (rn2data_r F add ps r).
+Proof. intros Hr Hp. unfold C14_DataGen.rn2data_r. exact (rn2d_r_valid ps [] 0 r _ Hr (or_intror Hp)). Qed.
+End Rounded.
+
+Lemma add_nonpos_exact c p : p <= 0 -> c + p <= c.
+Proof. intros H. apply (proj2 (le_sub F (c + p) c)). replace (c - (c + p)) with (0 - p) by ring. apply (proj1 (le_sub F p 0)). exact H. Qed.
+(* ... in particular for the model the harness executes and the translator regenerates *)
+Theorem rn2data_valid ps r : 0 <= r -> has_pos ps -> posidx ps (rn2data ps r).
+Proof. intros Hr Hp. rewrite <- rn2data_r_exact_add. exact (rn2data_r_valid (cadd F) add_nonpos_exact ps r Hr Hp). Qed.
+
+(* ---- generate_data_from_prob_dist: every datum produced from a VALIDATED vector is an outcome of positive probability ---- *)
+Lemma lsum_nonpos l : (forall p, In p l -> p <= 0) -> lsum l <= 0.
+Proof. induction l as [|a l IH]; intros H. { rewrite lsum_nil. apply k_refl. }
+  rewrite lsum_cons. assert (A : a + lsum l <= 0 + 0) by (apply le_add_compat; [apply H; now left|apply IH; intros p Hp; apply H; now right]).
+  replace (0 + 0) with 0 in A by ring. exact A. Qed.
+Lemma not_has_pos_all l : ~ has_pos l -> forall p, In p l -> p <= 0.
+Proof. intros N p Hp. apply not_pos_le. intros Hpos. apply N. destruct (In_nth _ _ 0 Hp) as (j & Hj & E). exists j. split; [exact Hj|now rewrite E]. Qed.
+Lemma validated_has_pos atol ps : atol < 1 -> validate F atol true ps = MOk tt -> has_pos ps.
+Proof. intros Ha Hv. unfold validate in Hv. destruct (existsb _ ps); [discriminate|]. cbn [andb] in Hv.
+  destruct (kleb F (absF F (lsum ps - 1)) atol) eqn:E; cbn [negb] in Hv; [|discriminate]. apply k_leb in E.
+  assert (Hs : 0 < lsum ps).
+  { unfold absF in E. destruct (kleb F 0 (lsum ps - 1)) eqn:E1.
+    - apply k_leb in E1. apply (lt_le_trans _ 1); [exact zero_lt_one|]. apply (proj2 (le_sub F 1 (lsum ps))). exact E1.
+    - assert (A : (1 - lsum ps) < 1). { apply (le_lt_trans _ atol); [|exact Ha]. replace (1 - lsum ps) with (- (lsum ps - 1)) by ring. exact E. }
+      destruct A as [A1 A2]. split.
+      + apply (proj1 (le_sub F (1 - lsum ps) 1)) in A1. replace (1 - (1 - lsum ps)) with (lsum ps) in A1 by ring. exact A1.
+      + intros E0. apply A2. rewrite <- E0. ring. }
+  destruct (flt F 0 (lsum ps)) eqn:Ef; [|apply flt_false in Ef; exfalso; exact (lt_irrefl_le _ _ Hs Ef)].
+  (* decide has_pos by scanning *)
+  assert (D : has_pos ps \/ ~ has_pos ps).
+  { clear. induction ps as [|a t IHt]; [right; intros (j & Hj & _); cbn in Hj; lia|].
+    destruct (flt F 0 a) eqn:E.
+    - left. exists O. split; [cbn; lia|]. now apply flt0_true.
+    - destruct IHt as [(j & Hj & Hp)|N]; [left; exists (S j); split; [cbn; lia|exact Hp]|].
+      right. intros (j & Hj & Hp). destruct j as [|j]; [apply flt0_true in Hp; cbn [nth] in Hp; congruence|].
+      apply N. exists j. split; [cbn in Hj; lia|exact Hp]. }
+  destruct D as [D|N]; [exact D|]. exfalso. exact (lt_irrefl_le _ _ Hs (lsum_nonpos _ (not_has_pos_all _ N))). Qed.
+
+Theorem gen_data_valid atol ps rs l : atol < 1 -> Forall (kle F 0) rs -> gen_data F atol ps rs = MOk l ->
+  length l = length rs /\ Forall (posidx ps) l.
+Proof. intros Ha Hr H. unfold gen_data in H. destruct (validate F atol true ps) as [[]|c] eqn:Ev; [|discriminate]. injection H as <-.
+  pose proof (validated_has_pos _ _ Ha Ev) as Hp. split; [apply map_length|].
+  apply Forall_forall. intros d Hd. apply in_map_iff in Hd. destruct Hd as (r & <- & Hin). rewrite Forall_forall in Hr.
+  apply rn2data_valid; [now apply Hr|exact Hp]. Qed.
 
 (* ------------------------------------------------------------------ numbers -> field *)
 Lemma fpos_succ p : fpos (Pos.succ p) = fpos p + 1.
@@ -294,35 +419,35 @@ Proof. induction data' as [|d data' IH]; intros idx cf next rest acc out Hlen Hl
       replace (Z.to_nat (last (next :: rest) 0%Z) - idx)%nat with (S (Z.to_nat (last (next :: rest) 0%Z) - S idx)) by lia.
       rewrite firstn_cons. constructor; [lia|exact A3]. Qed.
 
-(* a first sample size <= 0 is never matched: every datum is validated and nothing is emitted *)
-Lemma loop_never m len : forall data' idx cf next rest acc, (next <= Z.of_nat idx)%Z ->
-  empi_loop m len data' idx cf next rest acc = if forallb (in_rangeb m) data' then EOk (rev acc) else EErr 3.
-Proof. induction data' as [|d data' IH]; intros idx cf next rest acc H; [reflexivity|].
-  cbn [C14_DataGen.empi_loop forallb]. unfold in_rangeb at 1.
-  destruct ((0 <=? d)%Z && (d <? m)%Z); cbn [negb andb]; [|reflexivity].
-  destruct (Z.eqb_spec (Z.of_nat (S idx)) next) as [En|Nn]; [lia|]. apply IH. lia. Qed.
-
 Theorem empi_seq_spec m data ns : empi_pre m data ns -> empi_seq m data ns = EOk (map (empi_spec m data) ns).
 Proof. intros (Hm & Hinc & Hle & Hval). unfold C14_DataGen.empi_seq.
   destruct (Z.ltb_spec m 0) as [B|_]; [lia|]. destruct ns as [|n0 rest]; [reflexivity|].
   destruct Hinc as [Hn Hinc]. inversion Hle as [|? ? Hle1 Hle2]; subst.
+  destruct (Z.leb_spec n0 0) as [B|_]; [lia|].
   destruct (Z.ltb_spec (Z.of_nat (length data)) n0) as [B|_]; [lia|].
   rewrite (loop_ok m _ data eq_refl data [] O _ n0 rest []); try reflexivity; try assumption.
   - now rewrite counts_nil.
   - now rewrite Nat.sub_0_r. Qed.
 
-Theorem empi_seq_ok_inv m data ns out : (0 < hd 1%Z ns)%Z -> empi_seq m data ns = EOk out -> empi_pre m data ns.
-Proof. intros Hh H. unfold C14_DataGen.empi_seq in H. destruct (Z.ltb_spec m 0) as [_|Hm]; [discriminate|].
+(* a successful run implies the request was well-formed (no side condition any more: a first sample size <= 0 is an error) *)
+Theorem empi_seq_ok_inv m data ns out : empi_seq m data ns = EOk out -> empi_pre m data ns.
+Proof. intros H. unfold C14_DataGen.empi_seq in H. destruct (Z.ltb_spec m 0) as [_|Hm]; [discriminate|].
   destruct ns as [|n0 rest]. { repeat split; try assumption; constructor. }
-  cbn [hd] in Hh. destruct (Z.ltb_spec (Z.of_nat (length data)) n0) as [_|B]; [discriminate|].
+  destruct (Z.leb_spec n0 0) as [_|Hh]; [discriminate|].
+  destruct (Z.ltb_spec (Z.of_nat (length data)) n0) as [_|B]; [discriminate|].
   apply loop_inv in H; [|cbn [Z.of_nat]; lia|cbn [Z.of_nat]; lia|exact B]. destruct H as (A1 & A2 & A3).
   split; [exact Hm|]. split; [split; [exact Hh|exact A1]|]. split; [constructor; assumption|].
   now rewrite Nat.sub_0_r in A3. Qed.
 
-Theorem empi_seq_nonpositive_first m data n0 rest : (0 <= m)%Z -> (n0 <= 0)%Z ->
-  empi_seq m data (n0 :: rest) = if forallb (in_rangeb m) data then EOk [] else EErr 3.
+(* a first sample size <= 0 is rejected ("num_sums must be an increasing sequence" from former_num_sum = 0) *)
+Theorem empi_seq_nonpositive_first m data n0 rest : (0 <= m)%Z -> (n0 <= 0)%Z -> empi_seq m data (n0 :: rest) = EErr 4.
 Proof. intros Hm Hn. unfold C14_DataGen.empi_seq. destruct (Z.ltb_spec m 0) as [B|_]; [lia|].
-  destruct (Z.ltb_spec (Z.of_nat (length data)) n0) as [B|_]; [lia|]. rewrite loop_never by (cbn [Z.of_nat]; lia). reflexivity. Qed.
+  destruct (Z.leb_spec n0 0) as [_|B]; [reflexivity|lia]. Qed.
+
+(* the output has exactly one member per requested sample size, in order *)
+Theorem empi_seq_one_member_per_request m data ns out : empi_seq m data ns = EOk out -> map fst out = ns.
+Proof. intros H. pose proof (empi_seq_ok_inv _ _ _ _ H) as Hp. rewrite (empi_seq_spec _ _ _ Hp) in H. injection H as <-.
+  rewrite map_map. unfold C14_DataGen.empi_spec. cbn [fst]. apply map_id. Qed.
 
 Theorem empi_seq_negative_measurement_num m data ns : (m < 0)%Z -> empi_seq m data ns = EErr 1.
 Proof. intros H. unfold C14_DataGen.empi_seq. destruct (Z.ltb_spec m 0); [reflexivity|lia]. Qed.
@@ -376,16 +501,3 @@ Proof. intros Hn Hc Hs. unfold C14_DataGen.multi_to_empi. cbn [fst snd].
 
 End P.
 
-(* FINDING C14-1 in exact arithmetic: a probability vector ACCEPTED by validate_prob_dist (its sum is within atol of 1) and a
-   random number in [0,1) for which the generated datum is an outcome of probability exactly 0.  Over the executed field Qc. *)
-From Coq Require Import QArith Qcanon.
-From QV.Core Require Import QcOF.
-Definition wit_eps : Qc := Q2Qc (1 # 17592186044416).          (* 2^-44 *)
-Definition wit_ps : list Qc := [(1 - wit_eps)%Qc; 0%Qc].
-Definition wit_r : Qc := (1 - wit_eps)%Qc.
-Lemma zero_probability_outcome_reachable_qc :
-  gen_data Qc_OF wit_eps wit_ps [wit_r] = MOk [1%Z] /\ nth 1 wit_ps 1%Qc = 0%Qc /\
-  kle Qc_OF 0%Qc wit_r /\ klt Qc_OF wit_r 1%Qc.
-Proof. split; [vm_compute; reflexivity|]. split; [reflexivity|]. split.
-  - apply (proj1 (k_leb Qc_OF _ _)). vm_compute. reflexivity.
-  - split; [apply (proj1 (k_leb Qc_OF _ _)); vm_compute; reflexivity|]. intros H. apply (f_equal (fun x : Qc => Qnum (this x))) in H. vm_compute in H. discriminate H. Qed.
